@@ -526,8 +526,9 @@ func runC05Acl(c *Ctx, encrypt CallMatcher) {
 	{
 		rule := "C05.4-rotation-registered"
 		ark := p.Func(aclList + ":(*AclState).applyReadKeyChange")
-		c.Fn(FuncName(ark))
 		fRKCs := p.Field(aclList + ":AclState.readKeyChanges")
+		ark = descendToWrites(ark, fRKCs) // the storing half may have been split off
+		c.Fn(FuncName(ark))
 		fKeysMap := p.Field(aclList + ":AclState.keys")
 		fRecId := p.Field(aclList + ":AclRecord.Id")
 		var ev []ssa.Instruction
